@@ -437,6 +437,10 @@ func runCluster(h *h3, hooks clusterHooks) *cluster {
 		case "sleep":
 			simrt.Sleep(sleeps[int(op.Arg(0, 0))%len(sleeps)])
 		}
+		switch op.K {
+		case "cut", "cutf", "isolate", "heal":
+			h.cluster.Reevaluate() // a controller cut off from the majority loses its Raft leadership
+		}
 		if hooks.boundary != nil && !h.stop && len(h.s.Panics) == 0 {
 			hooks.boundary(c, false)
 		}
@@ -446,6 +450,7 @@ func runCluster(h *h3, hooks clusterHooks) *cluster {
 	}
 	// faults stop: heal, restart what is down, let the cluster converge
 	h.bus.HealAll()
+	h.cluster.Reevaluate()
 	h.bus.DropPerMille, h.bus.DelayPerMille = 0, 0
 	for _, n := range h.nodes {
 		if !n.up {
